@@ -24,6 +24,9 @@ func init() {
 			{ID: "C07.R6", Doc: "isEqual calls isEqual of every element: the From-constructors store a field in every slot, one conversion per entry (= C12.R2), so no element is a nil interface", Run: func(c *Ctx) {
 				c.R.Floor("C07.R6", runAs(c, "C07.R6", c12R2, nil), 14)
 			}},
+			{ID: "C07.R7", Doc: "the length test of isEqual reads Count through the ego pointer while the loop ranges the receiver's own spine: the two agree only if a plain container's ego is the container itself — Init stores its argument, Ego returns it, nothing else writes it (no whole-struct assignment into a live container), every allocation registers itself (= C19.R2)", Run: func(c *Ctx) {
+				c.R.Floor("C07.R7", runAs(c, "C07.R7", c19R2, nil), 6)
+			}},
 			{ID: "C07.R5", Doc: "PURE: isEqual and Equals write nothing", Run: func(c *Ctx) {
 				var names []string
 				for _, t := range c.Inv().Impls {
